@@ -99,7 +99,7 @@ def run_workers(prop, tier, seed, legs, outdir):
             leg, sh, p, out, inflight, errf, t0 = item
             rc = p.poll()
             if rc is None:
-                if time.time() - t0 > leg.timeout:
+                if time.time() - t0 > leg.timeout * (1 if tier == "quick" else 4):   # thorough legs may run for hours on a busy machine
                     p.kill()
                     p.wait()
                     rc = -999
